@@ -104,7 +104,8 @@ class BehavioralRTLIRGeneratorL1( ast.NodeVisitor ):
       except ValueError:
         pass
 
-    s.const_extractor = ConstantExtractor( s.blk, s.globals, s.closure )
+    s.const_extractor = ConstantExtractor( s.blk, s.globals, s.closure,
+                                           _bound_names( ast ) )
     ret = s.visit( ast )
     ret.component = s.component
     return ret
@@ -552,12 +553,20 @@ class BehavioralRTLIRGeneratorL1( ast.NodeVisitor ):
   def visit_ExtSlice( s, node ):
     raise PyMTLSyntaxError( s.blk, node, 'invalid operation: extslice' )
 
+def _bound_names( tree ):
+  """Names bound inside the update block (loop variables, temporaries)."""
+  return { x.id for x in ast.walk( tree )
+           if isinstance( x, ast.Name ) and isinstance( x.ctx, ast.Store ) }
+
 class ConstantExtractor( ast.NodeVisitor ):
-  def __init__( s, blk, global_ns, closure_ns ):
+  def __init__( s, blk, global_ns, closure_ns, bound_names = () ):
     s.blk = blk
     s.globals = global_ns
     s.cache = {}
     s.closure = closure_ns
+    # A name bound inside the block shadows a closure or module-level name
+    # of the same name: it is not a constant
+    s.bound = bound_names
     s.pymtl_functions = { concat, sext, zext, trunc,
                           reduce_or, reduce_and, reduce_xor,
                           copy.copy, copy.deepcopy }
@@ -638,7 +647,9 @@ class ConstantExtractor( ast.NodeVisitor ):
 
   def visit_Name( s, node ):
     name = node.id
-    if name in s.closure:
+    if name in s.bound:
+      obj = None
+    elif name in s.closure:
       # free var from closure
       obj = s.closure[ name ]
     elif name in s.globals:
